@@ -159,11 +159,24 @@ for via, dev in [(v, d) for v in ("init_device", "SCSIDevice", "ISCSIDevice") fo
                 exc = type(ex).__name__
             finally:
                 os.stat, os.lstat, os.open = _real_stat, _real_lstat, _real_os_open
+            first_opens = [list(o) for o in opens]
+            reopens = []
+            if klass == "SCSIDevice":
+                # the caller closes the device and opens it again: the same node, with the access asked for at first
+                del opens[:]
+                try:
+                    d.close()
+                    d.open()
+                except Exception as ex:
+                    opens.append([B("raised " + type(ex).__name__), "?"])
+                reopens = [list(o) for o in opens]
+                del opens[:]
+                opens.extend(first_opens)
             urls = [x[1] for x in fi.LOG if x[0] == "URL"]
             ctxs = [x[1] for x in fi.LOG if x[0] == "Context"]
             events.append({"ev": "init", "via": via, "touched": len(touched) + len(opens), "cfg": cfg, "dev": B(dev), "rw": rw,
                            "ini": B(ini if ini is not None else (dev if via == "ISCSIDevice" else default_ini)),
-                           "default_ini": ini is None, "class": klass, "exc": exc, "opens": [list(o) for o in opens],
+                           "default_ini": ini is None, "class": klass, "exc": exc, "opens": [list(o) for o in opens], "reopens": reopens,
                            "connects": sum(1 for x in fi.LOG if x[0] == "connect"),
                            "url": B(urls[0]) if len(urls) == 1 else (B("#".join(urls)) if urls else []),
                            "ctx": B(ctxs[0]) if len(ctxs) == 1 else (B("#".join(ctxs)) if ctxs else [])})
